@@ -151,7 +151,7 @@ func lockLeakInterleaved(mem *MemoryCache[vmeta], file *FileCache[vmeta]) {
 		default:
 			c.Get(k2)
 		}
-	}, 1)
+	}, vParam("interpose", 1))
 	switch symChoice(4) {
 	case 0:
 		if mem != nil {
